@@ -81,7 +81,7 @@ def api_names():
         hashes = dict(poseidon_hash=ph.poseidon_hash)
     except NotImplementedError:
         hashes = {}          # the selected backend has no registered Poseidon parameters (snarkjs, qaptools)
-    return dict(**hashes, PackBool=pk.PackBool, PackIntMod=pk.PackIntMod, PackList=pk.PackList, PackRepeat=pk.PackRepeat,
+    return dict(snark=rt.snark, **hashes, PackBool=pk.PackBool, PackIntMod=pk.PackIntMod, PackList=pk.PackList, PackRepeat=pk.PackRepeat,
                 PrivVal=rt.PrivVal, PubVal=rt.PubVal, ConstVal=rt.ConstVal, LinComb=rt.LinComb,
                 guarded=rt.guarded, PrivValBool=bo.PrivValBool, PubValBool=bo.PubValBool, LinCombBool=bo.LinCombBool,
                 PrivValFxp=fx.PrivValFxp, PubValFxp=fx.PubValFxp, LinCombFxp=fx.LinCombFxp,
@@ -231,12 +231,19 @@ ARRAY_T = [
     ("arr_set", None, "{a}[{i}] = {i}"), ("arr_set_c", None, "{a}[{i}] = {K}"), ("arr_set_k", None, "{a}[{z}] = {i}"),
 ]
 
+SNARK_T = [
+    # @snark-wrapped calls on plain inputs ({J} = an int input I[k], {F} = a float input I[k]); results are plain values
+    ("snark_if", None, "snark(lambda u, w: u * w + w)({J}, {F})"), ("snark_ff", None, "snark(lambda u, w: [u + w, (u - w) * 3])({F}, {F})"),
+    ("snark_struct", None, "snark(lambda s: {'a': s[0] * 2, 'b': s[1][0] + s[0]})([{F}, ({J}, 'tag')])"),
+    ("snark_cmp", None, "snark(lambda u, w: u < w)({F}, {J})"),
+]
+
 HASH_T = [
     ("poseidon2", "i", "poseidon_hash([{i}, {i}])[0]"), ("poseidon5", "i", "poseidon_hash([{i}, {i}, {b}, {i}, {i}])[1] * 0 + {i}"),
     ("poseidon_chain", "i", "poseidon_hash(poseidon_hash([{i}]))[3]"), ("poseidon_eq", "b", "poseidon_hash([{i}])[0] == poseidon_hash([{i}])[0]"),
 ]
 
-TEMPLATE_SETS = dict(int=INT_T, bool=BOOL_T, fxp=FXP_T, assert_=ASSERT_T, array=ARRAY_T, hash=HASH_T)
+TEMPLATE_SETS = dict(int=INT_T, bool=BOOL_T, fxp=FXP_T, assert_=ASSERT_T, array=ARRAY_T, hash=HASH_T, snark=SNARK_T)
 ALL_TEMPLATES = {t[0]: t for ts in TEMPLATE_SETS.values() for t in ts}
 
 
@@ -292,6 +299,12 @@ class Gen:
             return repr(q / (1 << self.res))
         if slot == "z":
             return str(r.randint(0, 1))
+        if slot in ("J", "F"):
+            want = ("PrivVal", "PubVal") if slot == "J" else ("PrivValFxp", "PubValFxp")
+            ks = [k for k, (c, _) in enumerate(self.inputs_now) if c in want]
+            if not ks:
+                raise KeyError(slot)
+            return "I[%d]" % r.choice(ks)
         raise KeyError(slot)
 
     # ---- program -----------------------------------------------------------------------------------
@@ -323,6 +336,7 @@ class Gen:
             inputs.append((ctor, v))
             lines.append("%s = %s(I[%d])" % (name, ctor, n))
             pools[ty].append(name)
+        self.inputs_now = inputs
         prog = Prog("\n".join(lines), inputs, self.bl, self.res)
         # shadow namespace (strict domain, guards always entered) used to steer generation
         model.reset(self.bl, self.res, strict=True)
@@ -348,7 +362,10 @@ class Gen:
                         return None
                     out.append(self.rnd.choice(pools[slot]))
                 else:
-                    out.append(self.const(slot))
+                    try:
+                        out.append(self.const(slot))
+                    except KeyError:
+                        return None
                 i = j + 1
             else:
                 out.append(ch)
@@ -480,7 +497,7 @@ def mutate_inputs(prog, rnd, mode="valid"):
             out.append(rnd.randint(0, 1))
         else:
             if mode == "valid":
-                out.append(rnd.randint(-4 << prog.res, 4 << prog.res) / (1 << prog.res))
+                out.append(float(rnd.randint(-4, 4)) if rnd.random() < 0.3 else rnd.randint(-4 << prog.res, 4 << prog.res) / (1 << prog.res))
             else:
                 out.append(rnd.randint(-(1 << (prog.bl + 1)), 1 << (prog.bl + 1)) / (1 << prog.res))
     return out
